@@ -7,6 +7,12 @@ VERIF = os.path.dirname(os.path.dirname(os.path.abspath(__file__)))
 ALL = [f"C{i:02d}" for i in range(1, 21)]
 
 CLAIMS = {
+    "C09": dict(
+        text="Machine-checked Coq proof by complete evaluation (vm_compute) over the 39 opcode tables regenerated from /repo on every run: name/number bijection, categorised opcodes defined and operand-taking (modulo CPython's own gaps), jrel/jabs disjoint, EXTENDED_ARG and shift, frozen category sets = category lists, label-finder binding; equality with the interpreter's opcode module (opmap, HAVE_ARGUMENT, EXTENDED_ARG, 7 categories) for the 9 installed CPythons.",
+        note="Trusted: Coq kernel; translator tools/translate/opcodes.py (imports /repo's opcode modules and dumps their attributes; dumps opcode modules of the installed interpreters). For the 30 tables without an installed interpreter only coherence is decided. No axioms.",
+        technique="Coq vm_compute obligations over tables regenerated from the source on every run",
+        design="7/C09",
+    ),
     "C08": dict(
         text="Machine-checked Coq proof: magic2int/int2magic are mutual inverses for all 65536 magics (arithmetic, lia); "
              "registry agreement, accepted-magic resolution, release-name/sysinfo2magic agreement are vm_compute obligations over tables "
